@@ -1,27 +1,33 @@
 /-
   Soundness of the enclosure oracle, part 9: the verdict function `Spec.withinUlps` (D128/Spec/Elem.lean).
   `T` is the positive true value, known only through `T ∈ₛ t` (`T = z·10^t.k`, `t.m.lo ≤ z ≤ t.m.hi`);
-  the result is the finite magnitude `c·10^e`.  `eT t = max (spacingExpS t.m.lo t.k) (spacingExpS t.m.hi t.k)`
-  is the exponent of the unit used by the verdict: the format's spacing at the upper end of the enclosure.
+  the result is the finite magnitude `c·10^e`, `x ≥ 0` the extra relative tolerance (0 for C16).
+  `eT t = max (spacingExpS t.m.lo t.k) (spacingExpS t.m.hi t.k)` is the exponent of the unit used by the
+  verdict: the format's spacing at the upper end of the enclosure.  Every `.bad` verdict is a statement about
+  every real `T` of the enclosure — no narrowness assumption.
 
+  0. `ulpExp T` : exponent of the unit in the last place of the format at a positive REAL `T`
+     (`max Emin (⌊log₁₀(T/(Cmax+1))⌋ + 1)`); `ulpExp_rat : ulpExp q = spacingExp q` (it is the specification's
+     notion on rationals); `ulpExp_le_eT : T ∈ₛ t → 0 < t.m.lo → ulpExp T ≤ eT t`
   1. `withinUlps_fin_cases` : for c ≠ 0 and 0 < t.m.lo, a `.bad` verdict on `.fin n c e` is one of
-       (a) ilog10 lo + k > Emax + 40,  (b) ilog10 lo + k < Emin − 40,  (c) |e − k| > 120,
-       (d) c·10^(e−k) < lo − u − lo·x  ∨  hi + u + hi·x < c·10^(e−k)      (u = 10^(eT − k))
-     and an `.ok` verdict is the negation of all four.
+       (a) ilog10 lo + k > Emax + 40,  (b) ilog10 hi + k < Emin − 40,
+       (c) c·10^(e−k) < lo − u − lo·x  ∨  hi + u + hi·x < c·10^(e−k)      (u = 10^(eT − k))
+     and an `.ok` verdict is the negation of all three.
   2. real-number meaning:
-     `withinUlps_fin_far`  : case (d) ⇒ c·10^e < T − 10^eT − x·lo·10^k ∨ T + 10^eT + x·hi·10^k < c·10^e
-     `withinUlps_fin_far0` : x = 0 ⇒ |c·10^e − T| > 10^eT        ("more than one ulp from the true value")
-     `withinUlps_fin_overflow` : case (a) ⇒ 10^(Emax+41) ≤ T
-     `withinUlps_fin_ok`   : `.ok` ⇒ |c·10^e − T| ≤ 10^eT + (hi − lo)·10^k + x·hi·10^k   (0 ≤ x)
-  3. `withinUlps_zero_bad` : (x = 0) a `.bad` verdict on a zero result ⇒ 10^Emin < T
-     (the true value is more than one subnormal ulp away from 0)
-  5. `spacingExpS_mono`, `spacing_le_eT`, `eT_eq_hi` : `10^eT` is the ulp at the upper end of the enclosure and
-     at least the ulp at every rational point of it;  `withinUlps_inf_bad` (meaning of `.bad` on ±Inf)
-  4. `withinUlps_bad_sound0` : summary for x = 0, result `.fin n c e` with c ≠ 0: a `.bad` verdict implies
-       |c·10^e − T| > 10^eT  ∨  10^(Emax+41) ≤ T  ∨  lo·10^k < 10^(Emin−40)  ∨  |e − k| > 120.
+     `withinUlps_far`       : case (c), 0 ≤ x ⇒ 10^eT + x·T < |c·10^e − T|
+     `withinUlps_fin_overflow`  : case (a) ⇒ 10^(Emax+41) ≤ T
+     `withinUlps_fin_underflow` : case (b) ⇒ T < 10^(Emin−40)
+     `withinUlps_fin_bad`   : summary: `.bad` on a finite non-zero result ⇒ one of the three
+     `withinUlps_fin_ok`    : `.ok` ⇒ |c·10^e − T| ≤ 10^eT + (hi − lo)·10^k + x·hi·10^k
+  3. `withinUlps_zero_bad`  : `.bad` on a zero result ⇒ 10^eT + x·T < T
+     `withinUlps_zero_ok`   : `.ok` on a zero result ⇒ T ≤ 10^eT + (hi − lo)·10^k + x·hi·10^k
+  4. `withinUlps_inf_bad`   : `.bad` on ±Inf ⇒ T < 10^(Emax+30) ∨ T + 10^eT + x·T < Cmax·10^Emax
+     `withinUlps_inf_ok`    : `.ok` on ±Inf ⇒ Cmax·10^Emax ≤ T + (hi−lo)·10^k + 10^eT + x·hi·10^k (or T ≥ 10^(Emax+37))
+  5. `spacingExpS_mono`, `spacing_le_eT`, `eT_eq_hi`
 -/
 import D128.Proofs.EnclosureElemLog
 import D128.Proofs.SpecRoundMono
+import Mathlib.Analysis.SpecialFunctions.Log.Base
 set_option autoImplicit false
 
 namespace EnclPf
@@ -31,18 +37,105 @@ open Spec Spec.Encl SpecRound
     the enclosure (they differ only when the enclosure touches a point where the spacing changes) -/
 def eT (t : Sci) : Int := max (spacingExpS t.m.lo t.k) (spacingExpS t.m.hi t.k)
 
+/-! ## 5 (first, it is used below). the spacing over the enclosure -/
+
+theorem spacingExpS_mono {q1 q2 : ℚ} (k : Int) (h1 : 0 < q1) (h12 : q1 ≤ q2) :
+    spacingExpS q1 k ≤ spacingExpS q2 k := by
+  have h2 : 0 < q2 := lt_of_lt_of_le h1 h12
+  have hp : (0 : ℚ) < (10 : ℚ) ^ k := zpow_pos (by norm_num) k
+  rw [spacingExpS_scale q1 h1 k, spacingExpS_scale q2 h2 k]
+  exact spacingExp_mono (mul_pos h1 hp) (mul_le_mul_of_nonneg_right h12 hp.le)
+
+/-- `10^eT` is at least the unit in the last place at every rational point of the enclosure, and it is
+    the unit at its upper end -/
+theorem spacing_le_eT {t : Sci} {q : ℚ} (hq : 0 < q) (h2 : q ≤ t.m.hi) : spacingExpS q t.k ≤ eT t :=
+  le_trans (spacingExpS_mono t.k hq h2) (le_max_right _ _)
+
+theorem eT_eq_hi {t : Sci} (hlo : 0 < t.m.lo) (h : t.m.lo ≤ t.m.hi) : eT t = spacingExpS t.m.hi t.k :=
+  max_eq_right (spacingExpS_mono t.k hlo h)
+
+/-! ## 0. the unit in the last place at a real number -/
+
+/-- exponent of the unit in the last place of the format (unbounded above, bounded below by `Emin`) at the
+    positive real `T`: the least `e ≥ Emin` with `T < (Cmax+1)·10^e` -/
+noncomputable def ulpExp (T : ℝ) : Int := max Emin (⌊Real.logb 10 (T / ((Cmax : ℝ) + 1))⌋ + 1)
+
+theorem lt_pow_of_ulp {T : ℝ} (hT : 0 < T) (E : Int) :
+    ⌊Real.logb 10 (T / ((Cmax : ℝ) + 1))⌋ + 1 ≤ E ↔ T < ((Cmax : ℝ) + 1) * (10 : ℝ) ^ E := by
+  have hC : (0 : ℝ) < (Cmax : ℝ) + 1 := by positivity
+  have hq : 0 < T / ((Cmax : ℝ) + 1) := div_pos hT hC
+  rw [Int.add_one_le_iff, Int.floor_lt, ← Real.rpow_intCast, Real.logb_lt_iff_lt_rpow (by norm_num) hq,
+    div_lt_iff₀ hC, mul_comm]
+
+theorem ulpExp_le_iff {T : ℝ} (hT : 0 < T) (E : Int) :
+    ulpExp T ≤ E ↔ Emin ≤ E ∧ T < ((Cmax : ℝ) + 1) * (10 : ℝ) ^ E := by
+  unfold ulpExp; rw [max_le_iff, lt_pow_of_ulp hT]
+
+/-- a spacing exponent of the specification dominates `ulpExp` of every real below the rational -/
+theorem ulpExp_le_spacing {T : ℝ} {q : ℚ} {k : Int} (hT : 0 < T) (hq : 0 < q)
+    (h : T ≤ (q : ℝ) * (10 : ℝ) ^ k) : ulpExp T ≤ spacingExpS q k := by
+  obtain ⟨h1, h2, -⟩ := spacingExpS_spec q hq k
+  rw [ulpExp_le_iff hT]
+  refine ⟨h1, lt_of_le_of_lt h ?_⟩
+  -- coef (q·10^k) E ≤ Cmax  ⇒  q·10^k < (Cmax+1)·10^E
+  unfold coef at h2
+  have hp : (0 : ℚ) < (10 : ℚ) ^ (spacingExpS q k) := zpow_pos (by norm_num) _
+  have hnn : (0 : ℚ) ≤ q * (10 : ℚ) ^ k / (10 : ℚ) ^ (spacingExpS q k) :=
+    div_nonneg (mul_nonneg hq.le (zpow_pos (by norm_num) k).le) hp.le
+  have h3 : q * (10 : ℚ) ^ k / (10 : ℚ) ^ (spacingExpS q k) < (Cmax : ℚ) + 1 := by
+    have := Nat.lt_floor_add_one (q * (10 : ℚ) ^ k / (10 : ℚ) ^ (spacingExpS q k))
+    have h2' : ((⌊q * (10 : ℚ) ^ k / (10 : ℚ) ^ (spacingExpS q k)⌋₊ : ℕ) : ℚ) ≤ (Cmax : ℚ) := by
+      exact_mod_cast h2
+    linarith
+  rw [div_lt_iff₀ hp] at h3
+  have h4 : ((q * (10 : ℚ) ^ k : ℚ) : ℝ) < (((Cmax : ℚ) + 1) * (10 : ℚ) ^ (spacingExpS q k) : ℚ) := by
+    exact_mod_cast h3
+  push_cast at h4
+  exact h4
+
+theorem ulpExp_le_eT {T : ℝ} {t : Sci} (hT : T ∈ₛ t) (hlo : 0 < t.m.lo) : ulpExp T ≤ eT t := by
+  obtain ⟨z, hz, rfl⟩ := hT
+  have hlo' : (0 : ℝ) < (t.m.lo : ℝ) := by exact_mod_cast hlo
+  have hzpos : 0 < z := lt_of_lt_of_le hlo' hz.1
+  have hk : (0 : ℝ) < (10 : ℝ) ^ t.k := zpow_pos (by norm_num) _
+  have hhi : 0 < t.m.hi := by
+    have : (0 : ℝ) < (t.m.hi : ℝ) := lt_of_lt_of_le hzpos hz.2
+    exact_mod_cast this
+  exact le_trans (ulpExp_le_spacing (mul_pos hzpos hk) hhi (mul_le_mul_of_nonneg_right hz.2 hk.le))
+    (le_max_right _ _)
+
+/-- on positive rationals `ulpExp` is the specification's `spacingExp` -/
+theorem ulpExp_rat (q : ℚ) (hq : 0 < q) : ulpExp (q : ℝ) = spacingExp q := by
+  have hq' : (0 : ℝ) < (q : ℝ) := by exact_mod_cast hq
+  apply le_antisymm
+  · have := ulpExp_le_spacing (k := 0) hq' hq (by simp)
+    exact this
+  · -- spacingExp q ≤ E for every E ≥ Emin with q < (Cmax+1)·10^E
+    set E := ulpExp (q : ℝ) with hE
+    obtain ⟨e1, e2⟩ := (ulpExp_le_iff hq' E).1 (le_refl _)
+    rw [spacingExp_eq]
+    apply max_le e1
+    rw [← coef_le_Cmax_iff q hq]
+    unfold coef
+    have hp : (0 : ℚ) < (10 : ℚ) ^ E := zpow_pos (by norm_num) _
+    have e3 : q < ((Cmax : ℚ) + 1) * (10 : ℚ) ^ E := by
+      have : ((q : ℚ) : ℝ) < ((((Cmax : ℚ) + 1) * (10 : ℚ) ^ E : ℚ) : ℝ) := by push_cast; exact e2
+      exact_mod_cast this
+    have e4 : q / (10 : ℚ) ^ E < (Cmax : ℚ) + 1 := by rw [div_lt_iff₀ hp]; exact e3
+    have e5 : ⌊q / (10 : ℚ) ^ E⌋₊ < Cmax + 1 := by
+      rw [Nat.floor_lt (div_nonneg hq.le hp.le)]; exact_mod_cast e4
+    omega
+
 /-! ## 1. case analysis of the finite non-zero branch -/
 
 theorem withinUlps_fin_cases (n : Bool) (c : Nat) (e : Int) (t : Sci) (x : ℚ) (hc : c ≠ 0)
     (hlo : 0 < t.m.lo) :
     (∀ m, withinUlps (.fin n c e) t x = .bad m →
-      (ilog10 t.m.lo + t.k > Emax + 40) ∨ (ilog10 t.m.lo + t.k < Emin - 40) ∨
-      (e - t.k > 120 ∨ e - t.k < -120) ∨
+      (ilog10 t.m.lo + t.k > Emax + 40) ∨ (ilog10 t.m.hi + t.k < Emin - 40) ∨
       ((c : ℚ) * pow10 (e - t.k) < t.m.lo - pow10 (eT t - t.k) - t.m.lo * x ∨
         t.m.hi + pow10 (eT t - t.k) + t.m.hi * x < (c : ℚ) * pow10 (e - t.k))) ∧
     (withinUlps (.fin n c e) t x = .ok →
-      ¬(ilog10 t.m.lo + t.k > Emax + 40) ∧ ¬(ilog10 t.m.lo + t.k < Emin - 40) ∧
-      (-120 ≤ e - t.k ∧ e - t.k ≤ 120) ∧
+      ¬(ilog10 t.m.lo + t.k > Emax + 40) ∧ ¬(ilog10 t.m.hi + t.k < Emin - 40) ∧
       t.m.lo - pow10 (eT t - t.k) - t.m.lo * x ≤ (c : ℚ) * pow10 (e - t.k) ∧
       (c : ℚ) * pow10 (e - t.k) ≤ t.m.hi + pow10 (eT t - t.k) + t.m.hi * x) := by
   have hc' : (c == 0) = false := by simpa using hc
@@ -55,28 +148,21 @@ theorem withinUlps_fin_cases (n : Bool) (c : Nat) (e : Int) (t : Sci) (x : ℚ) 
     · split at h
       · right; left; assumption
       · split at h
-        · rename_i hd
-          right; right; left
-          simpa using hd
-        · split at h
-          · exact absurd h (by simp)
-          · rename_i hb
-            right; right; right
-            simp only [Bool.and_eq_true, decide_eq_true_eq, not_and_or, not_le] at hb
-            exact hb
+        · exact absurd h (by simp)
+        · rename_i hb
+          right; right
+          simp only [Bool.and_eq_true, decide_eq_true_eq, not_and_or, not_le] at hb
+          exact hb
   · intro h
     split at h
     · exact absurd h (by simp)
     · split at h
       · exact absurd h (by simp)
       · split at h
-        · exact absurd h (by simp)
-        · split at h
-          · rename_i h1 h2 hd hb
-            simp only [Bool.and_eq_true, decide_eq_true_eq] at hb
-            simp only [Bool.or_eq_true, decide_eq_true_eq, not_or, not_lt] at hd
-            exact ⟨h1, h2, ⟨by omega, by omega⟩, hb.1, hb.2⟩
-          · exact absurd h (by simp)
+        · rename_i h1 h2 hb
+          simp only [Bool.and_eq_true, decide_eq_true_eq] at hb
+          exact ⟨h1, h2, hb.1, hb.2⟩
+        · split at h <;> exact absurd h (by simp)
 
 /-! ## 2. meaning over the reals -/
 
@@ -91,45 +177,71 @@ theorem unit_cast (a k : Int) : ((pow10 (a - k) : ℚ) : ℝ) * (10 : ℝ) ^ k =
   rw [pow10_cast, zpow_sub₀ (by norm_num)]
   field_simp
 
-theorem withinUlps_fin_far {c : Nat} {e : Int} {t : Sci} {x : ℚ} {T : ℝ} (hT : T ∈ₛ t)
+/-- the two-sided test fails ⇒ the result is more than one unit plus the extra tolerance from every `T` of
+    the enclosure (also for `c = 0`) -/
+theorem withinUlps_far {c : Nat} {e : Int} {t : Sci} {x : ℚ} {T : ℝ} (hT : T ∈ₛ t) (hlo : 0 < t.m.lo)
+    (hx : 0 ≤ x)
     (h : (c : ℚ) * pow10 (e - t.k) < t.m.lo - pow10 (eT t - t.k) - t.m.lo * x ∨
         t.m.hi + pow10 (eT t - t.k) + t.m.hi * x < (c : ℚ) * pow10 (e - t.k)) :
-    (c : ℝ) * (10 : ℝ) ^ e < T - (10 : ℝ) ^ (eT t) - (x : ℝ) * (t.m.lo : ℝ) * (10 : ℝ) ^ t.k ∨
-    T + (10 : ℝ) ^ (eT t) + (x : ℝ) * (t.m.hi : ℝ) * (10 : ℝ) ^ t.k < (c : ℝ) * (10 : ℝ) ^ e := by
+    (10 : ℝ) ^ (eT t) + (x : ℝ) * T < |(c : ℝ) * (10 : ℝ) ^ e - T| := by
   obtain ⟨z, hz, rfl⟩ := hT
   have hk : (0 : ℝ) < (10 : ℝ) ^ t.k := zpow_pos (by norm_num) _
+  have hlo' : (0 : ℝ) < (t.m.lo : ℝ) := by exact_mod_cast hlo
+  have hx' : (0 : ℝ) ≤ (x : ℝ) := by exact_mod_cast hx
+  have hzpos : 0 < z := lt_of_lt_of_le hlo' hz.1
+  have e1 := unit_cast (eT t) t.k
+  have hupos : (0 : ℝ) < ((pow10 (eT t - t.k) : ℚ) : ℝ) := by
+    have := pow10_pos (eT t - t.k); exact_mod_cast this
   rcases h with h | h
-  · left
-    have h' : (((c : ℚ) * pow10 (e - t.k) : ℚ) : ℝ) <
+  · have h' : (((c : ℚ) * pow10 (e - t.k) : ℚ) : ℝ) <
         ((t.m.lo - pow10 (eT t - t.k) - t.m.lo * x : ℚ) : ℝ) := by exact_mod_cast h
-    have := mul_lt_mul_of_pos_right h' hk
-    rw [scaled_cast] at this
-    push_cast at this
-    have e1 := unit_cast (eT t) t.k
-    have := mul_le_mul_of_nonneg_right hz.1 hk.le
+    push_cast at h'
+    -- 0 ≤ rs < lo(1-x) - u, so 1 - x > 0 and lo(1-x) ≤ z(1-x)
+    have hrs : (0 : ℝ) ≤ (c : ℝ) * ((pow10 (e - t.k) : ℚ) : ℝ) := by
+      have := (pow10_pos (e - t.k)).le
+      have : (0 : ℝ) ≤ ((pow10 (e - t.k) : ℚ) : ℝ) := by exact_mod_cast this
+      positivity
+    have h1x : 0 < 1 - (x : ℝ) := by
+      by_contra hcon
+      have hcon : 1 - (x : ℝ) ≤ 0 := not_lt.1 hcon
+      nlinarith
+    have hmono : (t.m.lo : ℝ) * (1 - (x : ℝ)) ≤ z * (1 - (x : ℝ)) :=
+      mul_le_mul_of_nonneg_right hz.1 h1x.le
+    have h2 : (c : ℝ) * ((pow10 (e - t.k) : ℚ) : ℝ) < z * (1 - (x : ℝ)) - ((pow10 (eT t - t.k) : ℚ) : ℝ) := by
+      nlinarith
+    have h3 := mul_lt_mul_of_pos_right h2 hk
+    have e2 := scaled_cast c e t.k
+    push_cast at e2
+    rw [lt_abs]; right
     nlinarith
-  · right
-    have h' : ((t.m.hi + pow10 (eT t - t.k) + t.m.hi * x : ℚ) : ℝ) <
+  · have h' : ((t.m.hi + pow10 (eT t - t.k) + t.m.hi * x : ℚ) : ℝ) <
         (((c : ℚ) * pow10 (e - t.k) : ℚ) : ℝ) := by exact_mod_cast h
-    have := mul_lt_mul_of_pos_right h' hk
-    rw [scaled_cast] at this
-    push_cast at this
-    have e1 := unit_cast (eT t) t.k
-    have := mul_le_mul_of_nonneg_right hz.2 hk.le
+    push_cast at h'
+    have hmono : z * (1 + (x : ℝ)) ≤ (t.m.hi : ℝ) * (1 + (x : ℝ)) :=
+      mul_le_mul_of_nonneg_right hz.2 (by linarith)
+    have h2 : z * (1 + (x : ℝ)) + ((pow10 (eT t - t.k) : ℚ) : ℝ) < (c : ℝ) * ((pow10 (e - t.k) : ℚ) : ℝ) := by
+      nlinarith
+    have h3 := mul_lt_mul_of_pos_right h2 hk
+    have e2 := scaled_cast c e t.k
+    push_cast at e2
+    rw [lt_abs]; left
     nlinarith
-
-theorem withinUlps_fin_far0 {c : Nat} {e : Int} {t : Sci} {T : ℝ} (hT : T ∈ₛ t)
-    (h : (c : ℚ) * pow10 (e - t.k) < t.m.lo - pow10 (eT t - t.k) - t.m.lo * 0 ∨
-        t.m.hi + pow10 (eT t - t.k) + t.m.hi * 0 < (c : ℚ) * pow10 (e - t.k)) :
-    (10 : ℝ) ^ (eT t) < |(c : ℝ) * (10 : ℝ) ^ e - T| := by
-  rcases withinUlps_fin_far hT h with h | h
-  · rw [lt_abs]; right; push_cast at h; linarith
-  · rw [lt_abs]; left; push_cast at h; linarith
 
 theorem lo_ge_pow_ilog10 {q : ℚ} (hq : 0 < q) : (10 : ℝ) ^ (ilog10 q) ≤ (q : ℝ) := by
   have := (ilog10_spec q hq).1
   have h : (((10 : ℚ) ^ (ilog10 q) : ℚ) : ℝ) ≤ (q : ℝ) := by exact_mod_cast this
   simpa using h
+
+theorem lt_pow_ilog10 {q : ℚ} (hq : 0 < q) : (q : ℝ) < (10 : ℝ) ^ (ilog10 q + 1) := by
+  have := (ilog10_spec q hq).2
+  have h : ((q : ℚ) : ℝ) < (((10 : ℚ) ^ (ilog10 q + 1) : ℚ) : ℝ) := by exact_mod_cast this
+  simpa using h
+
+theorem hi_pos_of_mem {t : Sci} {T : ℝ} (hT : T ∈ₛ t) (hlo : 0 < t.m.lo) : 0 < t.m.hi := by
+  obtain ⟨z, hz, -⟩ := hT
+  have : (t.m.lo : ℝ) ≤ (t.m.hi : ℝ) := le_trans hz.1 hz.2
+  have : t.m.lo ≤ t.m.hi := by exact_mod_cast this
+  linarith
 
 theorem withinUlps_fin_overflow {t : Sci} {T : ℝ} (hT : T ∈ₛ t) (hlo : 0 < t.m.lo)
     (h : ilog10 t.m.lo + t.k > Emax + 40) : (10 : ℝ) ^ (Emax + 41) ≤ T := by
@@ -141,23 +253,40 @@ theorem withinUlps_fin_overflow {t : Sci} {T : ℝ} (hT : T ∈ₛ t) (hlo : 0 <
     zpow_le_zpow_right₀ (by norm_num) (by omega)
   linarith
 
-theorem withinUlps_fin_underflow {t : Sci} (hlo : 0 < t.m.lo)
-    (h : ilog10 t.m.lo + t.k < Emin - 40) : (t.m.lo : ℝ) * (10 : ℝ) ^ t.k < (10 : ℝ) ^ (Emin - 40) := by
-  have := (ilog10_spec t.m.lo hlo).2
-  have h' : ((t.m.lo : ℚ) : ℝ) < (((10 : ℚ) ^ (ilog10 t.m.lo + 1) : ℚ) : ℝ) := by exact_mod_cast this
-  push_cast at h'
+/-- `T < 10^(b)` from the decimal exponent of the upper end -/
+theorem lt_pow_of_hi {t : Sci} {T : ℝ} (hT : T ∈ₛ t) (hlo : 0 < t.m.lo) {b : Int}
+    (h : ilog10 t.m.hi + t.k < b) : T < (10 : ℝ) ^ b := by
+  have h1 := sciMem_le_hi hT
   have hk : (0 : ℝ) < (10 : ℝ) ^ t.k := zpow_pos (by norm_num) _
-  have h2 := mul_lt_mul_of_pos_right h' hk
+  have h2 := mul_lt_mul_of_pos_right (lt_pow_ilog10 (hi_pos_of_mem hT hlo)) hk
   rw [← zpow_add₀ (by norm_num)] at h2
-  have h3 : (10 : ℝ) ^ (ilog10 t.m.lo + 1 + t.k) ≤ (10 : ℝ) ^ (Emin - 40) :=
+  have h3 : (10 : ℝ) ^ (ilog10 t.m.hi + 1 + t.k) ≤ (10 : ℝ) ^ b :=
     zpow_le_zpow_right₀ (by norm_num) (by omega)
   linarith
 
-theorem withinUlps_fin_ok {n : Bool} {c : Nat} {e : Int} {t : Sci} {x : ℚ} {T : ℝ} (hc : c ≠ 0)
-    (hlo : 0 < t.m.lo) (hx : 0 ≤ x) (hT : T ∈ₛ t) (h : withinUlps (.fin n c e) t x = .ok) :
+theorem withinUlps_fin_underflow {t : Sci} {T : ℝ} (hT : T ∈ₛ t) (hlo : 0 < t.m.lo)
+    (h : ilog10 t.m.hi + t.k < Emin - 40) : T < (10 : ℝ) ^ (Emin - 40) := lt_pow_of_hi hT hlo h
+
+/-- **`.bad` on a finite non-zero result**: more than one unit (plus the extra tolerance) from the true value,
+    or the true value is ≥ 10^(Emax+41) (no finite Decimal is near it), or it is < 10^(Emin−40)
+    (far below the smallest positive Decimal 10^Emin) -/
+theorem withinUlps_fin_bad {n : Bool} {c : Nat} {e : Int} {t : Sci} {x : ℚ} {T : ℝ} {m : String}
+    (hc : c ≠ 0) (hlo : 0 < t.m.lo) (hx : 0 ≤ x) (hT : T ∈ₛ t)
+    (h : withinUlps (.fin n c e) t x = .bad m) :
+    (10 : ℝ) ^ (eT t) + (x : ℝ) * T < |(c : ℝ) * (10 : ℝ) ^ e - T| ∨
+    (10 : ℝ) ^ (Emax + 41) ≤ T ∨ T < (10 : ℝ) ^ (Emin - 40) := by
+  rcases (withinUlps_fin_cases n c e t x hc hlo).1 m h with h1 | h1 | h1
+  · right; left; exact withinUlps_fin_overflow hT hlo h1
+  · right; right; exact withinUlps_fin_underflow hT hlo h1
+  · left; exact withinUlps_far hT hlo hx h1
+
+/-- the two-sided test holds ⇒ within one unit + enclosure width + extra tolerance -/
+theorem within_of_inside {c : Nat} {e : Int} {t : Sci} {x : ℚ} {T : ℝ} (hlo : 0 < t.m.lo) (hx : 0 ≤ x)
+    (hT : T ∈ₛ t)
+    (b1 : t.m.lo - pow10 (eT t - t.k) - t.m.lo * x ≤ (c : ℚ) * pow10 (e - t.k))
+    (b2 : (c : ℚ) * pow10 (e - t.k) ≤ t.m.hi + pow10 (eT t - t.k) + t.m.hi * x) :
     |(c : ℝ) * (10 : ℝ) ^ e - T| ≤
       (10 : ℝ) ^ (eT t) + ((t.m.hi : ℝ) - (t.m.lo : ℝ)) * (10 : ℝ) ^ t.k + (x : ℝ) * (t.m.hi : ℝ) * (10 : ℝ) ^ t.k := by
-  obtain ⟨-, -, -, b1, b2⟩ := (withinUlps_fin_cases n c e t x hc hlo).2 h
   obtain ⟨z, hz, rfl⟩ := hT
   have hk : (0 : ℝ) < (10 : ℝ) ^ t.k := zpow_pos (by norm_num) _
   have b1' : ((t.m.lo - pow10 (eT t - t.k) - t.m.lo * x : ℚ) : ℝ) ≤ (((c : ℚ) * pow10 (e - t.k) : ℚ) : ℝ) := by
@@ -181,104 +310,105 @@ theorem withinUlps_fin_ok {n : Bool} {c : Nat} {e : Int} {t : Sci} {x : ℚ} {T 
   rw [abs_le]
   constructor <;> nlinarith
 
+theorem withinUlps_fin_ok {n : Bool} {c : Nat} {e : Int} {t : Sci} {x : ℚ} {T : ℝ} (hc : c ≠ 0)
+    (hlo : 0 < t.m.lo) (hx : 0 ≤ x) (hT : T ∈ₛ t) (h : withinUlps (.fin n c e) t x = .ok) :
+    |(c : ℝ) * (10 : ℝ) ^ e - T| ≤
+      (10 : ℝ) ^ (eT t) + ((t.m.hi : ℝ) - (t.m.lo : ℝ)) * (10 : ℝ) ^ t.k + (x : ℝ) * (t.m.hi : ℝ) * (10 : ℝ) ^ t.k := by
+  obtain ⟨-, -, b1, b2⟩ := (withinUlps_fin_cases n c e t x hc hlo).2 h
+  exact within_of_inside hlo hx hT b1 b2
+
 /-! ## 3. zero results -/
 
-theorem withinUlps_zero_bad {n : Bool} {e : Int} {t : Sci} {T : ℝ} {m : String}
-    (hlo : 0 < t.m.lo) (hT : T ∈ₛ t) (h : withinUlps (.fin n 0 e) t 0 = .bad m) :
-    (10 : ℝ) ^ Emin < T := by
-  have h1 := sciMem_ge_lo hT
-  have hk : (0 : ℝ) < (10 : ℝ) ^ t.k := zpow_pos (by norm_num) _
-  have hlo' : (0 : ℝ) < (t.m.lo : ℝ) := by exact_mod_cast hlo
-  have hp : (0 : ℝ) < (10 : ℝ) ^ Emin := zpow_pos (by norm_num) _
-  unfold withinUlps at h
-  simp only [not_le.2 hlo, if_false, beq_self_eq_true, if_true, mul_zero, add_zero] at h
-  split at h
-  · exact absurd h (by simp)
-  · split at h
-    · -- the decimal exponent of the lower end is at least Emin + 2
-      rename_i _ hl
-      have h2 := mul_le_mul_of_nonneg_right (lo_ge_pow_ilog10 hlo) hk.le
-      rw [← zpow_add₀ (by norm_num)] at h2
-      have h3 : (10 : ℝ) ^ (Emin + 2) ≤ (10 : ℝ) ^ (ilog10 t.m.lo + t.k) :=
-        zpow_le_zpow_right₀ (by norm_num) (by omega)
-      have e2 : (10 : ℝ) ^ (Emin + 2) = (10 : ℝ) ^ Emin * 100 := by
-        rw [zpow_add₀ (by norm_num)]; norm_num
-      nlinarith
+theorem withinUlps_zero_cases (n : Bool) (e : Int) (t : Sci) (x : ℚ) (hlo : 0 < t.m.lo) :
+    (∀ m, withinUlps (.fin n 0 e) t x = .bad m → 0 < t.m.lo - pow10 (eT t - t.k) - t.m.lo * x) ∧
+    (withinUlps (.fin n 0 e) t x = .ok → t.m.lo - pow10 (eT t - t.k) - t.m.lo * x ≤ 0) := by
+  unfold withinUlps eT
+  simp only [not_le.2 hlo, if_false, beq_self_eq_true, if_true]
+  constructor
+  · intro m h
+    split at h
+    · exact absurd h (by simp)
+    · rename_i hb; exact not_le.1 hb
+  · intro h
+    split at h
+    · assumption
+    · exact absurd h (by simp)
+
+theorem withinUlps_zero_bad {n : Bool} {e : Int} {t : Sci} {x : ℚ} {T : ℝ} {m : String}
+    (hlo : 0 < t.m.lo) (hx : 0 ≤ x) (hT : T ∈ₛ t) (h : withinUlps (.fin n 0 e) t x = .bad m) :
+    (10 : ℝ) ^ (eT t) + (x : ℝ) * T < T := by
+  have h0 := (withinUlps_zero_cases n e t x hlo).1 m h
+  have hT0 : 0 < T := by
+    obtain ⟨z, hz, rfl⟩ := hT
+    have : (0 : ℝ) < (t.m.lo : ℝ) := by exact_mod_cast hlo
+    exact mul_pos (lt_of_lt_of_le this hz.1) (zpow_pos (by norm_num) _)
+  have := withinUlps_far (c := 0) (e := 0) hT hlo hx (Or.inl (by simpa using h0))
+  simp only [Nat.cast_zero, zero_mul, zero_sub, abs_neg, abs_of_pos hT0] at this
+  exact this
+
+theorem withinUlps_zero_ok {n : Bool} {e : Int} {t : Sci} {x : ℚ} {T : ℝ}
+    (hlo : 0 < t.m.lo) (hx : 0 ≤ x) (hT : T ∈ₛ t) (h : withinUlps (.fin n 0 e) t x = .ok) :
+    T ≤ (10 : ℝ) ^ (eT t) + ((t.m.hi : ℝ) - (t.m.lo : ℝ)) * (10 : ℝ) ^ t.k + (x : ℝ) * (t.m.hi : ℝ) * (10 : ℝ) ^ t.k := by
+  have h0 := (withinUlps_zero_cases n e t x hlo).2 h
+  have hpos : (0 : ℚ) ≤ t.m.hi + pow10 (eT t - t.k) + t.m.hi * x := by
+    have := hi_pos_of_mem hT hlo
+    have := pow10_pos (eT t - t.k)
+    positivity
+  have := within_of_inside (c := 0) (e := 0) hlo hx hT (by simpa using h0) (by simpa using hpos)
+  simp only [Nat.cast_zero, zero_mul, zero_sub, abs_neg] at this
+  exact le_trans (le_abs_self T) this
+
+/-! ## 4. infinite results -/
+
+theorem withinUlps_inf_cases (n : Bool) (t : Sci) (x : ℚ) (hlo : 0 < t.m.lo) :
+    (∀ m, withinUlps (.inf n) t x = .bad m →
+      ilog10 t.m.hi + t.k < Emax + 30 ∨
+      t.m.hi + t.m.hi * x + pow10 (eT t - t.k) < (Cmax : ℚ) * pow10 (Emax - t.k)) ∧
+    (withinUlps (.inf n) t x = .ok →
+      ilog10 t.m.lo + t.k > Emax + 36 ∨
+      (Cmax : ℚ) * pow10 (Emax - t.k) ≤ t.m.hi + t.m.hi * x + pow10 (eT t - t.k)) := by
+  unfold withinUlps eT
+  simp only [not_le.2 hlo, if_false]
+  constructor
+  · intro m h
+    split at h
+    · exact absurd h (by simp)
+    · split at h
+      · left; assumption
+      · split at h
+        · exact absurd h (by simp)
+        · rename_i hb; right; exact not_le.1 hb
+  · intro h
+    split at h
+    · left; assumption
     · split at h
       · exact absurd h (by simp)
-      · rename_i hb
-        rw [not_le] at hb
-        have hb' : ((1 : ℚ) : ℝ) < ((t.m.lo * pow10 (t.k - Emin) : ℚ) : ℝ) := by exact_mod_cast hb
-        rw [Rat.cast_mul, pow10_cast, zpow_sub₀ (by norm_num)] at hb'
-        push_cast at hb'
-        have : (t.m.lo : ℝ) * ((10 : ℝ) ^ t.k / (10 : ℝ) ^ Emin) * (10 : ℝ) ^ Emin = (t.m.lo : ℝ) * (10 : ℝ) ^ t.k := by
-          field_simp
-        have := mul_lt_mul_of_pos_right hb' hp
-        nlinarith
+      · split at h
+        · rename_i hb; right; exact hb
+        · exact absurd h (by simp)
 
-/-! ## 4. summary for the default tolerance -/
-
-theorem withinUlps_bad_sound0 {n : Bool} {c : Nat} {e : Int} {t : Sci} {T : ℝ} {m : String} (hc : c ≠ 0)
-    (hlo : 0 < t.m.lo) (hT : T ∈ₛ t) (h : withinUlps (.fin n c e) t 0 = .bad m) :
-    (10 : ℝ) ^ (eT t) < |(c : ℝ) * (10 : ℝ) ^ e - T| ∨ (10 : ℝ) ^ (Emax + 41) ≤ T ∨
-      (t.m.lo : ℝ) * (10 : ℝ) ^ t.k < (10 : ℝ) ^ (Emin - 40) ∨ (e - t.k > 120 ∨ e - t.k < -120) := by
-  rcases (withinUlps_fin_cases n c e t 0 hc hlo).1 m h with h1 | h1 | h1 | h1
-  · right; left; exact withinUlps_fin_overflow hT hlo h1
-  · right; right; left; exact withinUlps_fin_underflow hlo h1
-  · right; right; right; exact h1
-  · left; exact withinUlps_fin_far0 hT h1
-
-/-! ## 5. the spacing over the enclosure, infinite results -/
-
-theorem spacingExpS_mono {q1 q2 : ℚ} (k : Int) (h1 : 0 < q1) (h12 : q1 ≤ q2) :
-    spacingExpS q1 k ≤ spacingExpS q2 k := by
-  have h2 : 0 < q2 := lt_of_lt_of_le h1 h12
-  have hp : (0 : ℚ) < (10 : ℚ) ^ k := zpow_pos (by norm_num) k
-  rw [spacingExpS_scale q1 h1 k, spacingExpS_scale q2 h2 k]
-  exact spacingExp_mono (mul_pos h1 hp) (mul_le_mul_of_nonneg_right h12 hp.le)
-
-/-- `10^eT` is at least the unit in the last place at every rational point of the enclosure, and it is
-    the unit at its upper end -/
-theorem spacing_le_eT {t : Sci} {q : ℚ} (hq : 0 < q) (h2 : q ≤ t.m.hi) : spacingExpS q t.k ≤ eT t :=
-  le_trans (spacingExpS_mono t.k hq h2) (le_max_right _ _)
-
-theorem eT_eq_hi {t : Sci} (hlo : 0 < t.m.lo) (h : t.m.lo ≤ t.m.hi) : eT t = spacingExpS t.m.hi t.k :=
-  max_eq_right (spacingExpS_mono t.k hlo h)
-
-/-- an infinite result judged `.bad` (default tolerance): either the lower end of the enclosure is below
-    `10^(Emax+31)`, or the true value plus one ulp is still below the largest finite Decimal -/
-theorem withinUlps_inf_bad {n : Bool} {t : Sci} {T : ℝ} {m : String}
-    (hlo : 0 < t.m.lo) (hT : T ∈ₛ t) (h : withinUlps (.inf n) t 0 = .bad m) :
-    (t.m.lo : ℝ) * (10 : ℝ) ^ t.k < (10 : ℝ) ^ (Emax + 31) ∨
-    T + (10 : ℝ) ^ (eT t) < (Cmax : ℝ) * (10 : ℝ) ^ Emax := by
+/-- **`.bad` on an infinite result**: the true value is below `10^(Emax+30)` (representable, far from the
+    largest Decimal ≈ 10^(Emax+34)), or even the true value plus one unit plus the extra tolerance is below
+    the largest finite Decimal -/
+theorem withinUlps_inf_bad {n : Bool} {t : Sci} {x : ℚ} {T : ℝ} {m : String}
+    (hlo : 0 < t.m.lo) (hx : 0 ≤ x) (hT : T ∈ₛ t) (h : withinUlps (.inf n) t x = .bad m) :
+    T < (10 : ℝ) ^ (Emax + 30) ∨
+    T + (10 : ℝ) ^ (eT t) + (x : ℝ) * T < (Cmax : ℝ) * (10 : ℝ) ^ Emax := by
   have hk : (0 : ℝ) < (10 : ℝ) ^ t.k := zpow_pos (by norm_num) _
-  unfold withinUlps at h
-  simp only [not_le.2 hlo, if_false, mul_zero, add_zero] at h
-  split at h
-  · exact absurd h (by simp)
-  · split at h
-    · rename_i hl
-      left
-      have := (ilog10_spec t.m.lo hlo).2
-      have h' : ((t.m.lo : ℚ) : ℝ) < (((10 : ℚ) ^ (ilog10 t.m.lo + 1) : ℚ) : ℝ) := by exact_mod_cast this
-      push_cast at h'
-      have h2 := mul_lt_mul_of_pos_right h' hk
-      rw [← zpow_add₀ (by norm_num)] at h2
-      have h3 : (10 : ℝ) ^ (ilog10 t.m.lo + 1 + t.k) ≤ (10 : ℝ) ^ (Emax + 31) :=
-        zpow_le_zpow_right₀ (by norm_num) (by omega)
-      linarith
-    · split at h
-      · exact absurd h (by simp)
-      · rename_i hb
-        right
-        rw [ge_iff_le, not_le] at hb
-        have hb' : ((t.m.hi + pow10 (eT t - t.k) : ℚ) : ℝ) <
-            (((Cmax : ℚ) * pow10 (Emax - t.k) : ℚ) : ℝ) := by exact_mod_cast hb
-        have := mul_lt_mul_of_pos_right hb' hk
-        rw [scaled_cast] at this
-        push_cast at this
-        have e1 := unit_cast (eT t) t.k
-        have h1 := sciMem_le_hi hT
-        nlinarith
+  rcases (withinUlps_inf_cases n t x hlo).1 m h with h1 | h1
+  · left; exact lt_pow_of_hi hT hlo h1
+  · right
+    have hb' : ((t.m.hi + t.m.hi * x + pow10 (eT t - t.k) : ℚ) : ℝ) <
+        (((Cmax : ℚ) * pow10 (Emax - t.k) : ℚ) : ℝ) := by exact_mod_cast h1
+    have := mul_lt_mul_of_pos_right hb' hk
+    rw [scaled_cast] at this
+    push_cast at this
+    have e1 := unit_cast (eT t) t.k
+    obtain ⟨z, hz, rfl⟩ := hT
+    have hx' : (0 : ℝ) ≤ (x : ℝ) := by exact_mod_cast hx
+    have z2 := mul_le_mul_of_nonneg_right hz.2 hk.le
+    have z3 : (x : ℝ) * (z * (10 : ℝ) ^ t.k) ≤ (x : ℝ) * ((t.m.hi : ℝ) * (10 : ℝ) ^ t.k) :=
+      mul_le_mul_of_nonneg_left z2 hx'
+    nlinarith
 
 end EnclPf
